@@ -136,6 +136,17 @@ fn create_project(paths: &[PathBuf], suppress_output: bool) -> Result<FileBacked
     let mut errors: Vec<Diagnostic> = vec![];
 
     for file_path in files {
+        // A file identifier is text. A name that is not valid Unicode has no faithful
+        // spelling as text, and reading the file back by a lossy spelling of its name
+        // could read a different file.
+        if file_path.to_str().is_none() {
+            errors.append(&mut diagnostic(
+                Problem::CannotReadFile,
+                &file_path,
+                String::from("The file name is not valid Unicode"),
+            ));
+            continue;
+        }
         let res = project.push(FileId::from_path(&file_path));
         match res {
             Ok(_) => {}
